@@ -7,6 +7,15 @@ def seg_key(line):
     return line.startswith('{"ev":"Reset"') or '"ev":"Reset"' in line[:40]
 
 
+def plan_multi(ctx):
+    """Plan_Multi.tla: inputs with several offenders of one kind, enumerated by TLC; the driver forges them (VERIF_MULTI)."""
+    rec, pout = vlib.tlc_mc(ctx, 'Plan_Multi', 'Plan_Multi' if ctx.quick else 'Plan_Multi_big', workers=1)
+    plan = ctx.path('multi.out')
+    open(plan, 'w').write(pout)
+    vlib.GOENV['VERIF_MULTI'] = plan
+    return plan
+
+
 def run_history(ctx, exe, phases, sub, export=None, only=None, seed=None):
     env = {'VERIF_PHASES': phases}
     if export:
